@@ -116,7 +116,7 @@ def rule_pairing(ctx, rule="C05-pair"):
     if d:
         names = [callee_name(t) for _, t in d.calls()]
         disp = [t for _, t in d.calls() if callee_name(t).endswith("::new_display")]
-        ok = len(disp) == 1 and describe(d, d.origin_operand(disp[0]["args"][0])) in ("&p1", "&mem:1", "&local:1", "&mem:error", "&mem:err", "p1") and names and names[-1] == "core::panicking::panic_fmt" and not any("new_debug" in n for n in names)
+        ok = len(disp) == 1 and describe(d, d.origin_operand(disp[0]["args"][0])) in ("p1", "mem:1", "local:1", "mem:error", "mem:err") and names and names[-1] == "core::panicking::panic_fmt" and not any("new_debug" in n for n in names)
         ctx.ob(rule, d.path, "message=Display(err)", ok, how="panic!(\"{error}\"): the only argument is the error's Display", detail="the unwrap helper's panic builds its message with %s" % names)
     # constructors that cannot report: From<&str|String|&String|Box<str>> go through Repr::from_str and
     # turn its error into the message panic (unwrap_with_msg), possibly inside a private helper
@@ -193,7 +193,10 @@ def rule_mut_views(ctx, rule="MUTVIEW"):
     for path, b in F.bodies.items():
         for bb, t in b.calls():
             n = callee_name(t)
-            if n in ("core::slice::raw::from_raw_parts_mut", "core::str::converts::from_utf8_unchecked_mut", "core::ptr::slice_from_raw_parts_mut", "core::slice::<impl [T]>::get_unchecked_mut", "core::str::<impl str>::as_bytes_mut"):
+            # constructors that turn a raw pointer into `&mut` (conversions between views that are
+            # already `&mut` - as_bytes_mut, get_unchecked_mut, index_mut - hand out nothing new)
+            if n in ("core::slice::raw::from_raw_parts_mut", "core::str::converts::from_utf8_unchecked_mut", "core::ptr::slice_from_raw_parts_mut",
+                     "core::ptr::non_null::NonNull::<T>::as_mut", "core::ptr::mut_ptr::<impl *mut T>::as_mut", "core::ptr::mut_ptr::<impl *mut T>::as_mut_unchecked"):
                 sites.setdefault(path, []).append(n.rsplit("::", 1)[1])
     extra = {p: v for p, v in sites.items() if p not in allowed and p not in _callers_only_from(F, p, allowed)}
     ctx.ob(rule, "crate", "raw-mutable-views", not extra and bool(sites), how="from_raw_parts_mut / from_utf8_unchecked_mut only in %s" % sorted(set(sites) & set(allowed)), detail="a mutable raw view of storage is built outside the audited functions: %s" % extra)
@@ -227,7 +230,7 @@ def rule_atomics_syntactic(ctx, rule="P4"):
                 ctx.ob(rule, path, "atomic:" + site, a == "const:1", how="counter initialised to 1", detail="reference counter initialised to %s" % a)
                 continue
             a0 = describe(b, b.origin_operand(t["args"][0]))
-            on_counter = re.match(r"^repr::heap_buffer::HeapBuffer::reference_count\(", a0) is not None or re.match(r"^&\*repr::heap_buffer::HeapBuffer::header\(.*\)\.0$", a0) is not None
+            on_counter = re.match(r"^repr::heap_buffer::HeapBuffer::reference_count\(", a0) is not None or re.match(r"^HDR\(.*\)\.\d$", a0) is not None
             ctx.ob(rule, path, "atomic:" + site, leaf in ("fetch_add", "fetch_sub", "load") and on_counter, how="%s on the reference counter" % leaf, line=t.get("line", 0),
                    detail="atomic operation %s on %s is outside the Arc protocol (only fetch_add / fetch_sub / load on the reference counter are allowed)" % (leaf, a0))
     ctx.need(rule, "crate", "atomic-sites", n >= 5, "only %d atomic operations found" % n, how="%d atomic operations" % n)
